@@ -76,6 +76,9 @@ class World(EventDispatcher):
 
         if entity_id is None:
             entity_id = next(self.id_generator)
+            # Skip generated ids already taken by user supplied ones
+            while entity_id in self._entities:
+                entity_id = next(self.id_generator)
 
         # Code duplication for performance, see add_component
         for component in components:
